@@ -1150,3 +1150,16 @@ def cargo_check(lib_rs_text):
             ln = spans[0]['line_start'] if spans else 0
             diags.append((ln, msg.get('message', ''), (msg.get('code') or {}).get('code')))
     return rc == 0, diags, out[-3000:] if rc != 0 and not diags else ''
+
+
+def table_ev(ogp, leaf, term, lenient=False, flag_types=None):
+    """evaluate an extracted decision table at one point of its domain: the plain table evaluator first; a table written as a lookup in a
+    constant list (`TABLE.iter().find(|row| key(row) == key).map(|row| ..)`) needs the iteration forms, which the model-less SkelEval has"""
+    from conc import Eval as _Eval
+    try:
+        return _Eval(leaf, flag_types, lenient=lenient).ev(term) if flag_types is not None else _Eval(leaf, lenient=lenient).ev(term)
+    except Unbound:
+        ev = SkelEval(ogp, None, {}, '', None, extra_leaf=leaf)
+        ev.markers = False
+        ev.lenient = lenient
+        return ev.ev(term)
